@@ -61,10 +61,12 @@ impl Ctx {
         Ctx { fails: Vec::new(), stats: Stats::default() }
     }
     pub fn fail(&mut self, prop: &str, clause: &str, site: impl Into<String>, detail: impl Into<String>) {
+        let site: String = site.into();
+        let prop = if site.starts_with("harness-panic") { "HARNESS" } else { prop };
         // keep the log bounded: at most 4 fails per (prop, clause)
         let n = self.fails.iter().filter(|f| f.prop == prop && f.clause == clause).count();
         if n < 4 {
-            self.fails.push(Fail { prop: prop.into(), clause: clause.into(), site: site.into(), detail: detail.into() });
+            self.fails.push(Fail { prop: prop.into(), clause: clause.into(), site, detail: detail.into() });
         }
     }
 }
@@ -100,6 +102,10 @@ impl PanicInfo {
     /// message class + source file (not the line): stable across unrelated edits
     pub fn site(&self) -> String {
         let file = self.loc.rsplit('/').next().unwrap_or("").split(':').next().unwrap_or("");
+        if self.loc.starts_with("src/") || self.loc.contains("/verif/sim/") {
+            // a panic in the harness's own code is never a property violation
+            return format!("harness-panic:{}", self.loc);
+        }
         let class = if self.msg.contains("overflow") {
             "overflow"
         } else if self.msg.contains("capacity") {
